@@ -136,7 +136,7 @@ def observe_maps(app, g, reqs, variants, rng, problems):
         up = []
         for u in app.log[n0:]:
             bb = [lat_int(v, app.scale, problems and [], 'upstream bbox') for v in u['BBOX'].split(',')]
-            if u.get('VERSION') == '1.3.0' and u.get('CRS') == 'EPSG:4326':
+            if u.get('VERSION') == '1.3.0' and u.get('CRS') in ('EPSG:4326', 'EPSG:31467'):
                 bb = [bb[1], bb[0], bb[3], bb[2]]             # WMS 1.3.0: BBOX in the axis order of the CRS
             up.append(bb + [int(u['WIDTH']), int(u['HEIGHT'])])
         onetile = 'n/a'
@@ -174,7 +174,7 @@ def observe_infos(app, g, rng, n, variants, problems):
             continue
         u = new[0]
         ub = [float(v) / app.scale for v in u['BBOX'].split(',')]
-        if u.get('VERSION') == '1.3.0' and u.get('CRS') == 'EPSG:4326':
+        if u.get('VERSION') == '1.3.0' and u.get('CRS') in ('EPSG:4326', 'EPSG:31467'):
             ub = [ub[1], ub[0], ub[3], ub[2]]
         if any(abs(v - round(v)) > 1e-5 for v in ub):
             problems.append(('info-off-lattice', 'upstream feature info bbox %s is not on the lattice' % u['BBOX']))
@@ -244,6 +244,8 @@ CONFIGS = [
     ('Gpartul', 'Gpartul', dict(), [('1.1.1', 'EPSG:3857', False)]),
     ('G15', 'G15', dict(meta_size=(1, 1)), [('1.1.1', 'EPSG:3857', False), ('1.3.0', 'EPSG:900913', False)]),
     ('G2/4326', 'G2', dict(srs='EPSG:4326', scale=0.001), [('1.1.1', 'EPSG:4326', False), ('1.3.0', 'EPSG:4326', True)]),
+    # a projected reference system with north/east axis order (Gauss-Krueger): WMS 1.3.0 clients send northing first
+    ('G2/31467', 'G2', dict(srs='EPSG:31467'), [('1.1.1', 'EPSG:31467', False), ('1.3.0', 'EPSG:31467', True)]),
     # the upstream speaks WMS 1.3.0: BBOX in the axis order of the CRS, I / J stay column / row
     ('Grect/4326/up130', 'Grect', dict(srs='EPSG:4326', scale=0.001, upstream_version='1.3.0'),
      [('1.1.1', 'EPSG:4326', False), ('1.3.0', 'EPSG:4326', True)]),
@@ -259,7 +261,7 @@ def run(ctx):
     tlc.sany(SPEC)
     nmap = 600 if thorough else 220
     ninfo = 120 if thorough else 25
-    configs = CONFIGS if thorough else [c for c in CONFIGS if c[0] in ('G2/3857', 'Gneg/buffer', 'Gpartul', 'G15', 'G2/4326', 'Grect/cov', 'Grect/4326/up130')]
+    configs = CONFIGS if thorough else [c for c in CONFIGS if c[0] in ('G2/3857', 'Gneg/buffer', 'Gpartul', 'G15', 'G2/4326', 'Grect/cov', 'Grect/4326/up130', 'G2/31467')]
     for name, gname, kw, variants in configs:
         g = L.spec_grid(gname)
         srs = kw.get('srs', 'EPSG:3857')
